@@ -67,6 +67,9 @@ def toStr (x : F64) : String :=
   let (m, e) := normLoop x.m x.e
   if e ≥ 0 then s!"{m * 2 ^ e.toNat}/1" else s!"{m}/{2 ^ (-e).toNat}"
 
+/-- `x < k` for a natural `k`, exactly (this is `x < (k as f64)` whenever `k < 2^53`, where the conversion is exact) -/
+def ltNat (x : F64) (k : Nat) : Bool := x.toFrac.1 < k * x.toFrac.2
+
 def le (a b : F64) : Bool :=
   let (an, ad) := a.toFrac
   let (bn, bd) := b.toFrac
